@@ -254,8 +254,8 @@ struct RawEnum
       vr::begin_case(leaf_index, "alignedMalloc/alignedFree history", replay);
       ops_applied += run_raw(A, ops, D, replay);
       leaves++;
-      if (leaves == 1)
-        vr::sample(std::string("[") + A.name + "] " + replay, std::string("raw") + A.name);
+      if (leaves == 1 && (ops[0] == 0 || ops[0] == (int)A.mallocs.size() - 1))
+        vr::sample(std::string("[") + A.name + "] " + replay);
       return;
     }
     const int NM = (int)A.mallocs.size();
@@ -586,7 +586,7 @@ static void vec_part(int D)
         vr::begin_case(idx, "AlignedVector history", replay);
         applied += run_vec(ti, ops, D, replay);
         leaves++;
-        if (leaves == 1 && first == V_RESIZE500)
+        if (leaves == 1 && first == V_RESIZE500 && (ti == 1 || ti == 4))
           vr::sample(replay + "  (" + VOP_NAME[ops[0]] + ", " + VOP_NAME[ops[1]] + ", ...)", "vec" + std::to_string(ti));
         return;
       }
@@ -698,9 +698,10 @@ static void alloc_part()
       vr::begin_case((long long)i, "aligned_allocator::allocate", replay);
       alloc_dispatch(ti, g[i], replay);
     }
-    vr::sample("aligned_allocator<sizeof " + std::to_string(VEC_SIZES[ti]) + ">::allocate(n) for " + std::to_string(g.size()) + " n, e.g. max_size()+1 = "
+    if (ti == 3)
+      vr::sample("aligned_allocator<sizeof " + std::to_string(VEC_SIZES[ti]) + ">::allocate(n) for " + std::to_string(g.size()) + " n, e.g. max_size()+1 = "
             + std::to_string((~(size_t)0) / VEC_SIZES[ti] + 1),
-        "alloc" + std::to_string(ti));
+        "alloc");
   });
 }
 
